@@ -609,3 +609,51 @@ func (i *interpreter) modStub(x, m sym) value {
 	t := "(ite (fp.lt " + r + " " + f64Lit(0) + ") (fp.add RNE " + r + " " + am + ") " + r + ")"
 	return sym{sF64, 0, "(ite (fp.isNegative " + x.t + ") (fp.neg " + t + ") " + t + ")"}
 }
+
+func init() {
+	// package maps (generic helpers over runtime internals): shallow copies of interpreter maps
+	natives["maps.Clone"] = func(fr *frame, a []value) value {
+		switch m := a[0].(type) {
+		case map[value]value:
+			if m == nil {
+				return m
+			}
+			out := make(map[value]value, len(m))
+			for k, v := range m {
+				out[k] = v
+			}
+			return out
+		case *hashmap:
+			if m == nil {
+				return m
+			}
+			out := &hashmap{keyType: m.keyType, table: make(map[int]*entry, len(m.table))}
+			for _, head := range m.table {
+				for e := head; e != nil; e = e.next {
+					out.insert(e.key.(hashable), e.value)
+				}
+			}
+			return out
+		}
+		panic(unsupported(fmt.Sprintf("maps.Clone of %T", a[0])))
+	}
+	natives["maps.Copy"] = func(fr *frame, a []value) value {
+		switch src := a[1].(type) {
+		case map[value]value:
+			dst := a[0].(map[value]value)
+			for k, v := range src {
+				dst[k] = v
+			}
+			return nil
+		case *hashmap:
+			dst := a[0].(*hashmap)
+			for _, head := range src.entries() {
+				for e := head; e != nil; e = e.next {
+					dst.insert(e.key.(hashable), e.value)
+				}
+			}
+			return nil
+		}
+		panic(unsupported(fmt.Sprintf("maps.Copy of %T", a[1])))
+	}
+}
